@@ -11,3 +11,5 @@ for d in seeded/*/; do
   echo "== $n: $(echo "$out" | grep -c '^VIOLATION') violation line(s), $(echo "$out" | grep -c '^PROOF-LOST') proof-lost"
   echo "$out" | grep -E '^(VIOLATION|PROOF-LOST)' | sed 's/replay=.*replays\//  /' | cut -c1-200 | head -4
 done
+# restore the evidence of the unchanged tree (the checks above rewrote it on changed trees)
+git -C "$V" checkout -- evidence; rm -rf "$V/evidence/replays"
